@@ -292,6 +292,8 @@ def c14_sparse_dense(cfg):
     H1 = H1 + H1.T if herm else H1
     H1[H1 == 0] = 1.0
     H2 = np.diag(np.arange(1.0, N + 1))
+    scale = float(cfg.get("scale", 1.0))  # exact power of two: results scale exactly; small values probe the zero tolerance
+    H1, H2 = H1 * scale, H2 * scale  # every INPUT block stays above the documented zero tolerance atol = 1e-12
     cases = bad = 0
     first = None
     assignments = [a for a in itertools.product(range(cfg["nblocks"]), repeat=N) if all(a[k] <= max(a[:k], default=-1) + 1 for k in range(N))]
@@ -344,7 +346,7 @@ def c14_sparse_dense(cfg):
                 for k in outs[0]:
                     for other, nm in ((outs[1], "sparse"), (outs[2], "sparse_h1_only")):
                         a, b = outs[0][k], other[k]
-                        sc = max(1.0, float(np.max(np.abs(a))) if a.size else 1.0)
+                        sc = max(scale ** max(k[3], 1) * 1e-3, float(np.max(np.abs(a))) if a.size else 0.0)
                         if a.shape != b.shape or not np.all(np.isfinite(b)) or np.max(np.abs(a - b), initial=0.0) > 1e-9 * sc:
                             bad += 1
                             first = first or {"spectrum": list(spec), "subspace_indices": list(blocks), "fully_diagonalize": fdk, "format": nm,
@@ -470,6 +472,8 @@ def configs(tier):
         jobs.append(("vf.props.formats", "c14_sparse_vectors", dict(sparse_vectors=True, hermitian=herm)))
         for N, nbl in ((2, 2), (3, 2), (3, 3)) + (((4, 2),) if tier == "thorough" else ()):
             jobs.append(("vf.props.formats", "c14_sparse_dense", dict(sparse_dense=True, N=N, nblocks=nbl, hermitian=herm, max_order=3)))
+        # perturbation of size 2^-30 (well above atol = 1e-12, far below 1): the documented zero tolerance, not numpy's default
+        jobs.append(("vf.props.formats", "c14_sparse_dense", dict(sparse_dense=True, N=3, nblocks=2, hermitian=herm, max_order=2, scale=2.0 ** -30)))
     for kind in ("real", "complex", "biorthogonal"):
         for sizes in ([1, 2], [2, 2], [1, 1, 1]):
             jobs.append(("vf.props.formats", "c14_operator", dict(operator=True, sizes=list(sizes), basis=kind, hermitian=False)))
